@@ -20,11 +20,12 @@ Parts of the (finite, completely enumerated) space:
 from __future__ import annotations
 
 import itertools
+import os
 import math
 
 from mc import outline_ref as R
 from mc import ufo_build as B
-from mc.explore import Property, Result, digest, violation
+from mc.explore import Property, Result, digest, jdump, violation
 from mc.glyphspec import contour_multiset, spec_from_glyphset
 
 SMALLBOX = [(300, 300, "line"), (310.5, 300, "line"), (310.5, 320, "line"), (300, 320, "line")]
@@ -75,7 +76,14 @@ def second_master(shape, variant, palette, depth, anchors=False, sparse=False):
     g2["r"]["contours"] = [[(p[0] + 10, p[1] - 4.5) + tuple(p[2:]) for p in c] for c in g2["r"]["contours"]]
     if anchors:
         g2["r"]["anchors"] = [("top", 60.5, 85), ("bottom", 42, -12.5)]
-    if sparse:
+    if sparse == "subtree":
+        # sparse master: every leaf whose parent has an odd last index is absent, i.e. those parents
+        # are present in this master but none of the glyphs referencing them is
+        for name in list(g2):
+            parts = name[1:].split("_")
+            if name != "r" and len(parts) == depth and depth >= 2 and int(parts[-2]) % 2:
+                del g2[name]
+    elif sparse:
         for name in list(g2):
             if name.count("_") == depth - 1 and name != "r" and int(name.rsplit("_", 1)[-1].lstrip("n")) % 2:
                 del g2[name]
@@ -280,6 +288,12 @@ class C15(Property):
 
     # ---- bounds / enumeration --------------------------------------------------------------
     def bounds(self, tier):
+        b = self._bounds(tier)
+        if os.environ.get("C15_ONLY"):
+            b["only"] = os.environ["C15_ONLY"]
+        return b
+
+    def _bounds(self, tier):
         if tier == "quick":
             return {"depth": 0, "trie_depth": 3, "palette": B.QUICK_TRANSFORMS,
                     "shapes": ["tri", "cubic", "quad", "mixed", "two", "offstart"],
@@ -353,14 +367,20 @@ class C15(Property):
                     for mode in ("inplace", "copy"):
                         out.append([{"part": "anchors-trie", "interp": 0, "shape": shape, "variant": variant,
                                      "module": module, "mode": mode, "d": dd, "palette": pp}])
-                    out.append([{"part": "anchors-trie", "interp": 1, "shape": shape, "variant": variant,
-                                 "module": module, "mode": "inplace", "d": dd, "palette": pp}])
+                    for sparse in (0, "subtree"):
+                        out.append([{"part": "anchors-trie", "interp": 1, "shape": shape, "variant": variant,
+                                     "module": module, "mode": "inplace", "d": dd, "palette": pp,
+                                     "sparse": sparse}])
         for bi in range(4):
             for mi in range(8):
                 for module in ("ufoLib2", "defcon"):
                     for interp in (0, 1):
                         out.append([{"part": "anchors-marks", "base_anchors": bi, "mark_anchors": mi,
                                      "module": module, "interp": interp, "palette": list(b["mark_palette"])}])
+        only = b.get("only")
+        if only:  # developer aid (mutant triage): restrict to states whose description matches
+            import re
+            out = [h for h in out if re.search(only, jdump(h))]
         return out
 
     def describe(self, h, b):
@@ -745,12 +765,13 @@ class C15(Property):
     def run_anchors_trie(self, c, b):
         masters = [trie_glyphs(c["shape"], c["variant"], c["palette"], c["d"], anchors=True)]
         if c["interp"]:
-            masters.append(second_master(c["shape"], c["variant"], c["palette"], c["d"], anchors=True))
+            masters.append(second_master(c["shape"], c["variant"], c["palette"], c["d"], anchors=True,
+                                         sparse=c.get("sparse", 0)))
         res = self._propagate(c, masters)
         viols, ctrs, sig = Viols(), self._anchor_counters(), []
         nsub = nt = 0
         for mi, (bef, a1, a2, a3) in enumerate(res):
-            feat = {"part": "trie", "interp": c["interp"]}
+            feat = {"part": "trie", "interp": c["interp"], "sparse_master": c.get("sparse", 0)}
             a, b2 = self._check_anchors(bef, a1, a2, a3, set(), feat, viols, ctrs,
                                         {"module": c["module"], "master": mi, "variant": c["variant"],
                                          "mode": c.get("mode")})
